@@ -99,9 +99,7 @@ class Variable(IUnifiable):
         another variable."""
         if not self._is_bound:
             return self
-        if isinstance(self._value, Variable):
-            return self._value.get_value()
-        return self._value
+        return get_value(self._value)
     def to_python(self):
         v = self.get_value()
         if isinstance(v, Variable):
